@@ -24,8 +24,7 @@ MUTANTS = [
     ("sel_scalar_tolerance_ignored", "C02", 3000, INFRA,
      "            if abs(dt * round(shift) - time) <= tolerance:\n                return data[", "            if abs(dt * round(shift) - time) <= 1e-6:\n                return data["),
     ("sel_upper_limit_inclusive_size", "C02", 3000, INFRA,
-     "            if time < -tolerance or time > dt * (recordsz - 1) + tolerance:\n                raise ValueError(\n                    f\"'time' ({disptime}) must be within the valid range of \"\n                    \"observations, including tolerance, the interval \"\n                    f\"[{-tolerance}, {dt * (recordsz - 1) + tolerance}]\"\n                )\n\n            # compute continuous shift\n            shift = time / dt\n\n            # directly read",
-     "            if time < -tolerance or time > dt * recordsz + tolerance:\n                raise ValueError(\n                    f\"'time' ({disptime}) must be within the valid range of \"\n                    \"observations, including tolerance, the interval \"\n                    f\"[{-tolerance}, {dt * (recordsz - 1) + tolerance}]\"\n                )\n\n            # compute continuous shift\n            shift = time / dt\n\n            # directly read"),
+     "            if time < -tolerance or time > dt * (recordsz - 1) + tolerance:", "            if time < -tolerance or time > dt * recordsz + tolerance:", 0),
     ("ins_sample_at_complement", "C02", 3000, INFRA,
      "            prev_exobs, next_exobs = extrap(\n                obs,\n                dt - dt * (shift % 1),", "            prev_exobs, next_exobs = extrap(\n                obs,\n                dt * (shift % 1),"),
     ("hook_no_finalizer", "C16", 3000, INFRA,
